@@ -27,17 +27,28 @@ def run(P, rep, tier):
                        '(placemarker bookkeeping of ## with empty operands is outside the claimed clauses).')
     rep.assumptions += ['calloc succeeds', 'loops over token lists are analysed for 0..2 generic iterations',
                         'tokenize() returns a NUL/EOF-terminated token list', 'clang 14 typed AST']
-    eit, epaths = r_expand(P, u, rep)
-    r_subst(P, u, rep)
-    r_arg_one(P, u, rep)
-    r_args(P, u, rep)
-    r_definition(P, u, rep)
-    try:
-        r_hideset_prims(P, u, rep)
-    except NotConcrete as e:
-        rep.undecided('R09.7', '%s:hideset:not-concrete' % U, 'the interpreter cannot follow a hide-set primitive to a concrete list (%s)' % e)
-    r_stringize(P, u, rep)
-    r_builtins(P, u, rep, eit, epaths)
+    shared = {}
+
+    def part(name, f):
+        try:
+            return f()
+        except NotConcrete as e:
+            rep.undecided(name, '%s:%s:not-concrete' % (U, name), 'the interpreter cannot follow a helper to a concrete result (%s)' % e)
+        except AnalysisBroken as e:
+            rep.undecided(name, '%s:%s:analysis' % (U, name), 'analysis could not proceed: %s' % e)
+        return None
+
+    r = part('R09.1', lambda: r_expand(P, u, rep))
+    part('R09.3', lambda: r_subst(P, u, rep))
+    part('R09.5', lambda: r_arg_one(P, u, rep))
+    part('R09.5', lambda: r_args(P, u, rep))
+    part('R09.6', lambda: r_definition(P, u, rep))
+    part('R09.6', lambda: r_params(P, u, rep))
+    part('R09.3', lambda: r_arg_lookup(P, u, rep))
+    part('R09.7', lambda: r_hideset_prims(P, u, rep))
+    part('R09.9', lambda: r_stringize(P, u, rep))
+    if r is not None:
+        part('R09.8', lambda: r_builtins(P, u, rep, r[0], r[1]))
 
 
 # ------------------------------------------------------------------ expand_macro ---
@@ -201,7 +212,7 @@ def r_subst(P, u, rep):
         if need not in classes:
             raise AnalysisBroken('subst no longer compares tokens against %r' % need)
     A = Agg(rep)
-    seen = {'stringize': 0, 'paste-arg': 0, 'paste-body': 0, 'lhs-copy': 0, 'expand': 0}
+    seen = {'stringize': 0, 'paste-arg': 0, 'paste-body': 0, 'lhs-copy': 0, 'expand': 0, 'gnu-comma': 0, 'va-opt': 0}
     for ctx, out in paths:
         sp = SubstPath(it, ctx)
         facts = {'path': ctx.trail}
@@ -273,6 +284,43 @@ def r_subst(P, u, rep):
                         seen['lhs-copy'] += 1
                     A.ob('R09.3', '%s:%s:%s' % (U, fn, 'paste-operand-copied-raw' if adj else 'plain-parameter-not-expanded'), adj,
                          'the tokens of an argument are copied into the result without macro expansion although the parameter is not an operand of ##: arguments must be completely macro-replaced before substitution (C11 6.10.3.1); f(f(1)) style nesting breaks', where, facts)
+        # GNU `, ## __VA_ARGS__` and __VA_OPT__(..)
+        copied = set(id(e[2][0]) for e in sp.calls if e[1] == 'copy_token')
+        for b in sp.body:
+            n1 = sp.next_of(b)
+            n2 = sp.next_of(n1) if n1 is not None else None
+            if sp.cls(b) == {','} and n1 is not None and sp.cls(n1) == {'##'} and n2 is not None and sp.cls(n2) == {PARAM}:
+                ma = n2.meta.get('marg')
+                va = it.settle(ma.fields.get('is_va_args')) if ma is not None and 'is_va_args' in ma.fields else None
+                at = as_obj(it, ma.fields.get('tok')) if ma is not None and 'tok' in ma.fields else None
+                k = it.settle(at.fields.get('kind')) if isinstance(at, Obj) and 'kind' in at.fields else None
+                if va == 1 and isinstance(k, int):
+                    seen['gnu-comma'] += 1
+                    empty = (k == u.enums.get('TK_EOF'))
+                    A.ob('R09.3', '%s:%s:gnu-comma-%s' % (U, fn, 'dropped-when-variadic-empty' if empty else 'kept-when-variadic-present'), (id(b) in copied) == (not empty),
+                         '`, ## __VA_ARGS__` with %s variadic argument: the comma is %s' % ('an empty' if empty else 'a non-empty', 'emitted' if id(b) in copied else 'dropped'), '%s:%d' % (U, line), facts)
+        opts = [e for e in sp.calls if e[1] == 'read_macro_arg_one']
+        hvs = [e for e in sp.calls if e[1] == 'has_varargs']
+        if len(opts) != len(hvs):
+            rep.undecided('R09.3', '%s:%s:va-opt-shape' % (U, fn), '__VA_OPT__ content is read %d time(s) but has_varargs asked %d time(s) on one path' % (len(opts), len(hvs)), '%s:%d' % (U, line))
+        else:
+            for e, hv in zip(opts, hvs):
+                r = it.settle(hv[4])
+                opt = e[4]
+                tv = opt.fields.get('tok')
+                first = as_obj(it, tv) if tv is not None else None
+                k = it.settle(first.fields.get('kind')) if isinstance(first, Obj) and 'kind' in first.fields else None
+                nonempty = isinstance(k, int) and k != u.enums.get('TK_EOF')
+                linked = isinstance(first, Obj) and any(x[0] == 'fstore' and x[2] == 'next' and it.settle(x[4]) is first for x in ctx.events)
+                if not isinstance(r, int):
+                    continue
+                if r and not nonempty:
+                    continue        # nothing to emit (or the content was never looked at)
+                seen['va-opt'] += 1
+                A.ob('R09.3', '%s:%s:va-opt-%s' % (U, fn, 'expands-when-variadic-present' if r else 'vanishes-when-variadic-empty'), linked == bool(r),
+                     '__VA_OPT__(x): has_varargs is %s but the content is %s' % ('true' if r else 'false', 'emitted' if linked else 'dropped'), '%s:%d' % (U, e[3]), facts)
+                a = [show(Desc(it, ctx).of(x)) for x in hv[2]]
+                A.ob('R09.3', '%s:%s:va-opt-tests-the-invocation-arguments' % (U, fn), a == ['args'], 'has_varargs is asked about %s instead of the argument list of the invocation' % a, '%s:%d' % (U, hv[3]), facts)
     A.flush()
     for k, v in seen.items():
         if v == 0:
@@ -323,9 +371,7 @@ def r_arg_one(P, u, rep):
         raise AnalysisBroken('anchor %s/new_eof vanished' % fn)
     rep.rule('R09.5', 'read_macro_arg_one copies tokens while tracking parenthesis depth: it stops only at depth 0 on ")" (or "," unless reading the variadic rest), diagnoses EOF, and returns the copied list terminated by an EOF token with *rest at the terminator', floor=9)
     lits = literals_compared(u.fn(fn))
-    for need in ('(', ')', ','):
-        if need not in lits:
-            raise AnalysisBroken('%s no longer compares tokens against %r' % (fn, need))
+    lits += [x for x in ('(', ')', ',') if x not in lits]     # a spelling the code no longer tests still exists in the input
     classes = lits + [OTHER, EOFC]
     K = 3
     hook, cell_of = _indexed_tokens(u, classes, K)
@@ -538,6 +584,173 @@ def r_args(P, u, rep):
         rep.undecided('R09.5', '%s:%s:no-return-path' % (U, fn), 'no returning path', where=where)
 
 
+def _params_oracle(cl):
+    """chibicc's parameter-list grammar over a list of token classes; returns (param indices, va, rest index) or 'error'"""
+    i = 0
+    params = []
+    first = True
+    n = len(cl)
+    get = lambda k: cl[k] if k < n else EOFC
+    while True:
+        if get(i) == ')':
+            return (tuple(params), None, i + 1)
+        if not first:
+            if get(i) != ',':
+                return 'error'
+            i += 1
+        if get(i) == '...':
+            return (tuple(params), '__VA_ARGS__', i + 2) if get(i + 1) == ')' else 'error'
+        if get(i) != OTHER:
+            return 'error'
+        if get(i + 1) == '...':
+            return (tuple(params), ('name-of', i), i + 3) if get(i + 2) == ')' else 'error'
+        params.append(i)
+        i += 1
+        first = False
+
+
+def r_params(P, u, rep):
+    import itertools
+    fn = 'read_macro_params'
+    if fn not in u.functions:
+        raise AnalysisBroken('anchor %s vanished' % fn)
+    lits = literals_compared(u.fn(fn))
+    lits += [x for x in (')', ',', '...') if x not in lits]
+    classes = lits + [OTHER, EOFC]
+    K = 4
+    hook0, cell_of = _indexed_tokens(u, classes, K)
+    ident, punct, eof = u.enums.get('TK_IDENT'), u.enums.get('TK_PUNCT'), u.enums.get('TK_EOF')
+
+    def hook(it, ctx, o, f, t):
+        if o.tname == 'Token' and f == 'kind' and o.meta.get('copy_of') is None:
+            return View(cell_of(o), lambda c: eof if c == EOFC else (ident if c == OTHER else punct), 'kind')
+        return hook0(it, ctx, o, f, t)
+
+    def m_equal(it, ctx, n, args):
+        t = as_obj(it, args[0], n)
+        if isinstance(t, int) and t == 0:
+            raise NoReturn('<null-deref>', [], n.line)
+        if not isinstance(t, Obj) or args[1] not in classes:
+            raise AnalysisBroken('equal() shape not understood in %s line %d' % (fn, n.line))
+        return View(cell_of(t), lambda c, sx=args[1]: 1 if c == sx else 0, 'is%r' % args[1])
+
+    def m_skip(it, ctx, n, args):
+        v = m_equal(it, ctx, n, args)
+        if it.truth(v, n):
+            return it.read_field(as_obj(it, args[0], n), 'next')
+        raise NoReturn('error_tok', [args[0], 'expected ' + str(args[1])], n.line)
+
+    def cut_strndup(it, ctx, n, args):
+        r = Sym(ctx.fresh('name-of:' + repr(args[0])), 'char *')
+        ctx.emit('call', 'strndup', args, n.line, r)
+        return r
+
+    def null_deref(it_, n):
+        raise NoReturn('<null-deref>', [], n.line)
+
+    it = PInterp(P, u, {'models': {'equal': m_equal, 'skip': m_skip}, 'cut': {'strndup': cut_strndup}, 'loop_limit': K + 2,
+                        'track_stores': True, 'lazy_field': hook, 'on_null_deref': null_deref})
+
+    def mk(ctx):
+        t0 = Obj('Token', lazy=True, label='tok0')
+        t0.meta['idx'] = 0
+        ctx.t0 = t0
+        ctx.box = {'rest': 0, 'va': 0}
+        return [_Ref(VarPlace(ctx.box, 'rest')), t0, _Ref(VarPlace(ctx.box, 'va'))]
+
+    def tok_index(x):
+        nm = getattr(x, 'name', None) or repr(x)
+        import re
+        m = re.search(r'tok(\d+)\.loc', nm)
+        return int(m.group(1)) if m else None
+
+    A = Agg(rep)
+    where = '%s:%d' % (U, u.fn(fn).line)
+    nret = 0
+    for ctx, out in it.explore(fn, mk, max_paths=50000):
+        toks, _ = chain(it, ctx.t0)
+        cands = [list(cell_of(t).cands) for t in toks]
+        outcomes = set()
+        for combo in itertools.product(*cands):
+            outcomes.add(_params_oracle(list(combo)))
+            if len(outcomes) > 1:
+                break
+        facts = {'path': ctx.trail, 'token classes': cands}
+        if out[0] == 'ret':
+            nret += 1
+            lst, _ = chain(it, out[1]) if out[1] is not None else ([], None)
+            names = [tok_index(o.fields.get('name')) for o in lst]
+            va = ctx.box['va']
+            if isinstance(va, str):
+                vao = va
+            elif isinstance(va, int) and va == 0:
+                vao = None
+            else:
+                vao = ('name-of', tok_index(va))
+            r = it.settle(ctx.box['rest'])
+            ri = r.meta.get('idx') if isinstance(r, Obj) else None
+            obs = (tuple(names), vao, ri)
+        elif out[1] in ('error_tok', 'error_at', 'error'):
+            obs = 'error'
+        else:
+            obs = 'run-past-the-end'
+        if len(outcomes) > 1:
+            A.ob('R09.6', '%s:%s:undistinguished-spellings' % (U, fn), False,
+                 'the parameter list is read as %r without looking at spellings that matter: %s' % (obs, sorted(map(str, outcomes))), where, facts)
+            continue
+        want = outcomes.pop()
+        if want == 'error':
+            key = 'malformed-list-diagnosed'
+        elif want[1] is None:
+            key = 'plain-list(%d)' % len(want[0])
+        elif want[1] == '__VA_ARGS__':
+            key = 'ellipsis(%d)' % len(want[0])
+        else:
+            key = 'named-variadic(%d)' % len(want[0])
+        A.ob('R09.6', '%s:%s:%s' % (U, fn, key), obs == want,
+             'for token classes %s the parameter reader yields %r (parameter token indices, variadic name, index of *rest); the grammar requires %r' % (cands, obs, want), where, facts)
+    A.flush()
+    if nret == 0:
+        rep.undecided('R09.6', '%s:%s:no-return-path' % (U, fn), 'no returning path', where=where)
+
+
+def r_arg_lookup(P, u, rep):
+    for f in ('find_arg', 'has_varargs'):
+        if f not in u.functions:
+            raise AnalysisBroken('anchor %s vanished' % f)
+    it = _conc(P, u)
+    A = Agg(rep)
+    eof, ident = u.enums.get('TK_EOF'), u.enums.get('TK_IDENT')
+
+    def mk_args(specs):
+        head = 0
+        objs = []
+        for nm, empty in reversed(specs):
+            t = Obj('Token', lazy=False, fields={'kind': eof if empty else ident, 'loc': 'v', 'len': 1, 'next': 0})
+            head = Obj('MacroArg', lazy=False, label=nm, fields={'name': nm, 'next': head, 'tok': t, 'is_va_args': 0})
+            objs.insert(0, head)
+        return head, objs
+    names = ['a', 'ab', '__VA_ARGS__']
+    lists = [[], ['a'], ['ab', 'a'], ['a', 'ab', '__VA_ARGS__']]
+    probes = [('a', 1), ('ab', 2), ('abc', 2), ('abc', 1), ('b', 1), ('abc', 3), ('__VA_ARGS__', 11), ('__VA_ARGS__x', 11), ('__VA_ARGS__', 4)]
+    w = '%s:%d' % (U, u.fn('find_arg').line)
+    for l in lists:
+        for buf, n in probes:
+            head, objs = mk_args([(x, False) for x in l])
+            tok = Obj('Token', lazy=False, fields={'kind': ident, 'loc': buf, 'len': n, 'next': 0})
+            r = it.settle(_run1(it, 'find_arg', [head, tok]))
+            want = next((o for o in objs if o.fields['name'] == buf[:n]), 0)
+            A.ob('R09.3', '%s:find_arg:length-and-bytes' % U, r is want or (r == 0 and want == 0),
+                 'find_arg(%s, "%s") answers %s: a parameter is recognised by a prefix / not recognised, so another argument (or none) is substituted' % (l, buf[:n], getattr(r, 'label', r)), w)
+    w = '%s:%d' % (U, u.fn('has_varargs').line)
+    for specs, want in (([], 0), ([('__VA_ARGS__', True)], 0), ([('__VA_ARGS__', False)], 1), ([('a', False)], 0), ([('a', False), ('__VA_ARGS__', False)], 1), ([('a', False), ('__VA_ARGS__', True)], 0)):
+        head, objs = mk_args(specs)
+        r = it.settle(_run1(it, 'has_varargs', [head]))
+        A.ob('R09.3', '%s:has_varargs:nonempty-variadic-argument' % U, isinstance(r, int) and (1 if r else 0) == want,
+             'has_varargs(%s) answers %r: __VA_OPT__ would expand for an empty variadic argument or vanish for a non-empty one' % (specs, r), w)
+    A.flush()
+
+
 def r_definition(P, u, rep):
     fn = 'read_macro_definition'
     for f in (fn, 'read_macro_params', 'add_macro', 'copy_line'):
@@ -545,8 +758,7 @@ def r_definition(P, u, rep):
             raise AnalysisBroken('anchor %s vanished' % f)
     rep.rule('R09.6', 'a #define introduces a function-like macro iff "(" follows the name with no white space; the name must be an identifier; parameters and body are read from the right tokens and stored in the Macro', floor=8)
     lits = literals_compared(u.fn(fn))
-    if '(' not in lits:
-        raise AnalysisBroken('%s no longer compares a token against "("' % fn)
+    lits += [x for x in ('(',) if x not in lits]
     classes = lits + [OTHER]
     ident = u.enums.get('TK_IDENT')
 
@@ -646,7 +858,7 @@ def r_definition(P, u, rep):
 
 
 def _conc(P, u, **kw):
-    cfg = {'track_stores': False, 'loop_limit': 0}
+    cfg = {'track_stores': False, 'loop_limit': 0, 'rec_limit': 64}
     cfg.update(kw)
     return PInterp(P, u, cfg)
 
